@@ -1165,8 +1165,6 @@ theorem str_error_is_undefined {pv : PVal} {x : Err} (h : pv.str .strict = .erro
   obtain ⟨q, _, hq⟩ := str_error_holds h
   exact ⟨q, hq⟩
 
-def IsUndefErr (r : Except Err α) : Prop := ∃ p, r = .error (.undefined p)
-
 /-- **render_error_iff_used** (text, `{{ e }}`) -/
 theorem render_error_iff_used (ctx : Ctx) (e : CExpr) :
     (∃ p, renderC .strict ctx e none = .error (.undefined p)) ↔ UsedUndef ctx e = true := by
@@ -1720,10 +1718,10 @@ theorem undefined_is_error_consumer_free {ctx : Ctx} {e : Expr} {p : Path}
 
 /-! ### kernel-checked witnesses: the shapes of F-C16-d, and their USED counterparts -/
 
-private def cA : Ctx := [("a".toList, .str "A".toList)]
-private def rA : CExpr := .ref ⟨"a".toList, []⟩
-private def rN : CExpr := .ref ⟨"nope".toList, []⟩
-private def lst (xs : List CExpr) : CExpr := .coll .list (xs.map fun x => ([], x))
+def cA : Ctx := [("a".toList, .str "A".toList)]
+def rA : CExpr := .ref ⟨"a".toList, []⟩
+def rN : CExpr := .ref ⟨"nope".toList, []⟩
+def lst (xs : List CExpr) : CExpr := .coll .list (xs.map fun x => ([], x))
 
 /-- `{{ [nope]|length }}` = `1`, `{{ [a, nope]|first }}` = `A`, `{{ [nope, a]|last }}` = `A`,
 `{{ [a, nope][0] }}` = `A`, `{{ {'k': nope}|length }}` = `1`, `{{ {'k': nope}|first }}` = `k`,
